@@ -2,12 +2,13 @@
  * usage: list_replay <array|linked_list|dlinked_list>[:url-elems|:url-keys] <scriptfile> [first]
  *   :url-elems  the stored elements are spif_url objects, the probes handed to remove/index/find/contains plain spif_str
  *   :url-keys   the other way round.  A url IS a str and compares by its text, so the abstract sequence is the same.
+ *   :level=N    the run-time debug level (DEBUG_LEVEL) during the scripts; the abstract sequence does not know it.
  * State token: {a=[..],b={live=T|F,s=[..]},it=n}
  */
 #include "common.h"
 
 static const char *cls_name;
-static int url_elems, url_keys;
+static int url_elems, url_keys, run_level;
 static spif_list_t A, B;
 static spif_iterator_t IT;
 static int it_count;          /* mirror: number of next() calls that yielded, capped like the spec */
@@ -226,8 +227,18 @@ static const char *vh_step(const vh_step_t *st, vh_sb *ret, vh_sb *state) {
 int main(int argc, char **argv) {
     if (argc < 3) { fprintf(stderr, "usage: %s <class> <scripts> [first]\n", argv[0]); return 2; }
     cls_name = argv[1];
-    { char *c = strchr(argv[1], ':'); if (c) { *c = 0; url_elems = !strcmp(c + 1, "url-elems"); url_keys = !strcmp(c + 1, "url-keys"); } }
+    {   /* options behind the class name, comma separated: url-elems | url-keys | level=N (run-time debug level) */
+        char *c = strchr(argv[1], ':'), *o;
+        if (c) {
+            *c = 0;
+            for (o = strtok(c + 1, ","); o; o = strtok(NULL, ",")) {
+                if (!strcmp(o, "url-elems")) url_elems = 1;
+                else if (!strcmp(o, "url-keys")) url_keys = 1;
+                else if (!strncmp(o, "level=", 6)) run_level = atoi(o + 6);
+            }
+        }
+    }
     libast_set_program_name("list_replay");
-    DEBUG_LEVEL = 0;
+    DEBUG_LEVEL = (unsigned int) run_level;      /* the library's trace statements (stderr) must not change what a list does */
     return vh_main(argc, argv, 2);
 }
